@@ -1,6 +1,11 @@
 package rules
 
 func init() {
+	property(&Property{ID: "C04",
+		Rules: []string{"A4.log", "L4a", "L4b", "O2.dedup", "O2.own", "PULL.range", "O1.pipeline", "L3"},
+		Explanation: "tbd",
+		Assumptions: []string{"tbd"},
+	})
 	property(&Property{ID: "C16",
 		Rules: []string{"L1", "L2", "L3"},
 		Explanation: "tbd",
